@@ -866,6 +866,18 @@ class Executor:
                     if sv.ty.kind != 'str':
                         raise NotPure()
                     parts.append(sv.z)
+                elif isinstance(v, ast.FormattedValue) and v.conversion == -1 and isinstance(v.value, ast.Name) \
+                        and isinstance(v.format_spec, ast.JoinedStr) and len(v.format_spec.values) == 1 \
+                        and isinstance(v.format_spec.values[0], ast.Constant) and v.format_spec.values[0].value == '02x' \
+                        and not cx.spec:
+                    # f'{b:02x}': a deterministic function of the integer; two characters for a byte value (CPython: '02x'
+                    # pads to at least two hex digits, and 0..255 has at most two) -- a trusted fact about str.format
+                    iv = self.pure(st, v.value, cx)
+                    if iv.ty.kind != 'int':
+                        raise NotPure()
+                    hx = self.uf('fmt_02x', z3.IntSort(), z3.StringSort())(iv.z)
+                    st = st.assume(z3.Implies(z3.And(iv.z >= 0, iv.z < 256), z3.Length(hx) == 2))
+                    parts.append(hx)
                 else:
                     raise NotPure()
         except (NotPure, VCError):
